@@ -18,6 +18,14 @@ pub fn run(ctx: &mut Ctx) {
                 deliver(ctx, "issuer_auth", "c03.spec", &sc, &rdr, reg, name, alt, &pt, None);
             }
         }
+        // the forged / replaced certificates again as the SECOND response of a session whose first response was authentic
+        if let Some(warm) = warmed_reader(&sc, &sc.rdr) {
+            for alt in [Alt::X5Forged(true), Alt::X5Forged(false), Alt::X5SelfSigned, Alt::X5Unrelated, Alt::SigFlip(3, 1), Alt::PayloadFlip(40, 2)] {
+                let mut pt = sc.plaintext.clone();
+                apply(&alt, &sc, &mut pt, &mut rng);
+                deliver(ctx, "issuer_auth_round2", "c03.spec", &sc, &warm, &regs[0].1, regs[0].0, &alt, &pt, None);
+            }
+        } else { ctx.count("round2:not-reached"); }
         ctx.rng = rng;
     }
 }
